@@ -79,6 +79,9 @@ fn main() {
             std::process::exit(2);
         }
     };
-    let code = run::execute(plan, &tier, seed, &verif_dir);
+    // VERIF_OUT_DIR: where evidence/ and replays/ go (experiments on modified trees
+    // must not overwrite the committed evidence); defaults to the verif directory
+    let out_dir = std::env::var("VERIF_OUT_DIR").unwrap_or_else(|_| verif_dir.clone());
+    let code = run::execute(plan, &tier, seed, &verif_dir, &out_dir);
     std::process::exit(code);
 }
